@@ -434,6 +434,7 @@ class Ctx:
         self.trace = []
         self.scratch = {}
         self.loop_specs = {}
+        self._decided = {}
         self.div_rules = {}
         self.div_defs = {}               # quotient var -> (numerator Poly, denominator Poly)
         self.post_rules = {}             # rewrite rules applied only to cleared goals (e.g. T^2 -> Gram determinant)
@@ -483,7 +484,14 @@ class Ctx:
             if not cond:
                 raise PathEnd("assume False")
             return
-        self.facts.append((name or "assume", bz(cond)))
+        t = bz(cond)
+        self.facts.append((name or "assume", t))
+        try:
+            ts = z3.simplify(t)
+            self._decided[ts.sexpr()] = True
+            self._decided[z3.simplify(z3.Not(ts)).sexpr()] = False
+        except Exception:
+            pass
 
     def prove(self, name, cond, kind="post", prop_level=True, tol=1e-9, **meta):
         if self.mode == "concrete":
@@ -603,6 +611,11 @@ class Ctx:
             return True
         if z3.is_false(t):
             return False
+        # the same condition decided earlier on this path: reuse the verdict (no fork, no solver call)
+        key = t.sexpr()
+        known = self._decided.get(key)
+        if known is not None:
+            return known
         k = len(self.decisions)
         if k < len(self.prefix):
             val = self.prefix[k]
@@ -620,6 +633,8 @@ class Ctx:
                 val = False
         self.decisions.append(val)
         self.facts.append(("branch", t if val else z3.Not(t)))
+        self._decided[key] = val
+        self._decided[z3.simplify(z3.Not(t)).sexpr()] = not val
         return val
 
     def choice(self, n, label="choice"):
